@@ -78,6 +78,7 @@ Inductive op :=
 | OpXlat (entries : list (N * N * N))
 | OpLoad (file : bool) (lazy : bool) (content : bytes)
 | OpSave (cap : option N)
+| OpSavePath (full : bool)           (* save( file_name ): unopenable path / a device without space *)
 | OpValidate
 | OpObsHdr
 | OpObsSec (i : N)
@@ -426,6 +427,11 @@ Definition step1 (w : world) (o : op) : res (world * list obs) :=
   | OpSave cap =>
       '(el1, os, ok) <- save junk0 el (new_ostream cap) ;;
       Ok (mkWorld el1, [ObB T_SAVE [b2n ok] (Some (os_bytes os))])
+  | OpSavePath full =>
+      if full then
+        '(el1, os, ok) <- save junk0 el (new_ostream (Some 0)) ;;
+        Ok (mkWorld el1, [ObN T_SAVE [b2n ok]])
+      else Ok (w, [ObN T_SAVE [0]])          (* the stream cannot be opened: false before anything else happens *)
   | OpValidate =>
       let cs := validate el in
       Ok (w, [ObN T_VALID [lenN (filter (fun c => match c with COverlap _ _ => true | _ => false end) cs);
